@@ -286,7 +286,9 @@ func (w *blobWriter) Write(buf []byte) (int, error) {
 		}
 	} else {
 		if w.chunk == nil {
-			w.chunk = make([]byte, 0, w.chunkSize)
+			// The chunk size may have come from the server
+			// (OCI-Chunk-Min-Length): it must not size the allocation.
+			w.chunk = make([]byte, 0, min(w.chunkSize, defaultChunkSize))
 		}
 		w.chunk = append(w.chunk, buf...)
 	}
